@@ -1,7 +1,7 @@
 (* Executable observation functions for the C10 correspondence check. *)
 From Verif.Lib Require Import GoSem Bits.
 From Verif.Gen Require Import Consts.
-From Verif.Model Require Import PeerRecord ClientRpc.
+From Verif.Model Require Export PeerRecord ClientRpc.
 Local Open Scope Z_scope.
 
 (* compact constructors used by the generated case files *)
